@@ -199,7 +199,9 @@ func c09Many(nu, ns int, writeFails bool, bound int) *explore.Scenario {
 				vsched.GoNamed("caller-"+tag, func() {
 					cs := w.Open(d.CC, context.Background(), r)
 					if cs != nil {
-						if env.CSend(r, cs, r.Tag+".m0") == nil && env.CRecvOne(r, cs) == nil {
+						if env.CSend(r, cs, r.Tag+".m0") != nil {
+							env.CRecvOne(r, cs) // the send was refused: the receive side tells how the stream ended
+						} else if env.CRecvOne(r, cs) == nil {
 							env.CRecvOne(r, cs) // waits for more without half-closing: only the failure can end it
 						}
 					}
